@@ -292,6 +292,7 @@ pub fn c07(tier: Tier) -> PropertyDef {
         subs: vec![
             sub("table_short", tier.pick(600_000, 8_000_000), messy(3, 40), c07_check).rates(&[("merge_happened", 0.02), ("has_resume", 0.02)]).boxed(),
             sub("table_long", tier.pick(40_000, 500_000), messy(2, 400), c07_check).rates(&[("gt20_lifecycles", 0.2), ("has_resume", 0.2), ("resume_start_le_origin_start", 0.02)]).boxed(),
+            crate::props::binsubs::c07_sub(tier),
         ],
         workers: 16,
     }
